@@ -288,6 +288,35 @@ CLAIMED = {
         design="DESIGN.md §4 C20"),
 }
 
+# additions of the session of 2026-09-25 (appended to the texts above)
+EXTRA = {
+    "C05": " For specifications with sub-specifications and repeated sub-formulas: the dense-time interpreter as the code organises it "
+           "(operator dictionary keyed by node name, per-update memo, all assertions visited at every update, one constants_sent flag) is "
+           "translated from the source (generate_glue_dense) and proved equal to the mirror ProgramOn (genGlueDn_update, genGlueDn_program), "
+           "which refines the state trees the chunking theorems are about (C09_dense_modular_eq_inlined).",
+    "C09": " Dense time: C09_dense_program_refines_trees / _trees_of_program / _ok_iff / _modular_eq_inlined (the dense-time online "
+           "interpreter with its name-keyed dictionary, memo and several assertions returns, for every assertion and every update, what "
+           "the stand-alone state tree of C05 returns; it raises iff some assertion's tree raises), on the mirror ProgramOn, which "
+           "genGlueDn_visit / _round / _run / _program prove equal to the update visitor and update() as translated from the source.",
+    "C10": " gen_spec_reset_fresh_noop (the translated spec.reset() before the first update leaves the object unchanged); dense time: "
+           "genGlueDn_reset / genGlueDn_reset_run (the translated reset() = set_ast(): fresh objects, constants_sent cleared, every "
+           "variable's batch emptied; a run after it = a run of a fresh program).",
+    "C12": " Dense time: the memo part of C09_dense_program_refines_trees (after every update the entry of every operator sub-formula of "
+           "every assertion is the list its stand-alone monitor returns) and genGlueDn_visit_frame (the translated visitor stores the "
+           "returned list under the node in results, which get_value reads).",
+    "C13": " The specification-level forwarding is translated from abstract_specification.py (GenFwd): gen_spec_set_sampling_period "
+           "(every discrete-time interpreter the object owns receives period, unit and tolerance), gen_spec_violation_counter (the "
+           "specification-level counter is the sum over its interpreters).",
+    "C17": " gen_spec_ast_before_use (GenFwd): on the forwarding methods of abstract_specification.py as translated from the source, for "
+           "every freshly constructed specification object (offline, online or both interpreters) and every sequence of evaluate / "
+           "update / final_update / reset / set_sampling_period calls that return, every call that reaches an interpreter finds it with "
+           "its AST set (the AttributeError of F54 cannot occur).",
+    "C01": " gen_spec_set_sampling_period (GenFwd): a specification-level set_sampling_period reaches the offline interpreter of an "
+           "object that also owns an online one.",
+}
+for _p, _t in EXTRA.items():
+    CLAIMED[_p]["text"] = CLAIMED[_p]["text"] + _t
+
 NOT_YET = {}
 
 def main():
